@@ -474,3 +474,79 @@ func (li *loopInfo) isElem(info *types.Info, e ast.Expr) bool {
 	}
 	return false
 }
+
+// defExpr returns the expression that defines local variable o when o is assigned exactly once
+// inside body (a `:=`/`=` with a positionally matching right-hand side, or a `var` with a value)
+// and its address is never taken; nil otherwise.
+func defExpr(info *types.Info, body ast.Node, o types.Object) ast.Expr {
+	if o == nil {
+		return nil
+	}
+	var def ast.Expr
+	n := 0
+	walkAll(body, func(m ast.Node) bool {
+		switch x := m.(type) {
+		case *ast.AssignStmt:
+			for i, l := range x.Lhs {
+				if id, ok := unparen(l).(*ast.Ident); ok && info.ObjectOf(id) == o {
+					n++
+					if len(x.Rhs) == len(x.Lhs) && (x.Tok == token.DEFINE || x.Tok == token.ASSIGN) {
+						def = x.Rhs[i]
+					} else {
+						n++
+					}
+				}
+			}
+		case *ast.ValueSpec:
+			for i, id := range x.Names {
+				if info.ObjectOf(id) == o && len(x.Values) == len(x.Names) {
+					n++
+					def = x.Values[i]
+				} else if info.ObjectOf(id) == o && len(x.Values) != 0 {
+					n += 2
+				}
+			}
+		case *ast.IncDecStmt:
+			if id, ok := unparen(x.X).(*ast.Ident); ok && info.ObjectOf(id) == o {
+				n += 2
+			}
+		case *ast.RangeStmt:
+			for _, e := range []ast.Expr{x.Key, x.Value} {
+				if id, ok := e.(*ast.Ident); ok && info.ObjectOf(id) == o {
+					n += 2
+				}
+			}
+		case *ast.UnaryExpr:
+			if x.Op == token.AND {
+				if id, ok := unparen(x.X).(*ast.Ident); ok && info.ObjectOf(id) == o {
+					n += 2
+				}
+			}
+		}
+		return true
+	})
+	if n != 1 {
+		return nil
+	}
+	return def
+}
+
+// resolveLocal follows single-definition locals (at most 4 steps) to the expression they stand for.
+func resolveLocal(info *types.Info, body ast.Node, e ast.Expr) ast.Expr {
+	for i := 0; i < 4; i++ {
+		id, ok := unparen(e).(*ast.Ident)
+		if !ok {
+			break
+		}
+		o := info.ObjectOf(id)
+		if _, isVar := o.(*types.Var); !isVar {
+			break
+		}
+		d := defExpr(info, body, o)
+		if d == nil {
+			break
+		}
+		e = d
+	}
+	return unparen(e)
+}
